@@ -141,6 +141,8 @@ def run_shard(binpath, unit, tiercfg, pid, uname, k, seed, statsdir, tier, repla
     if unit.get("engine") == "fuzz" and not replay:
         args += ["-test.run", "^$", "-test.fuzz", "^" + unit["fuzz"] + "$", "-test.fuzztime", "%ds" % tiercfg.get("fuzztime", 60),
                  "-test.fuzzcachedir", os.path.join(rundir, "fuzzcache"), "-test.parallel", str(tiercfg.get("workers", min(NCPU, 8)))]
+        # the default 60 s minimisation per interesting input starves slow targets of executions
+        args += ["-test.fuzzminimizetime", str(tiercfg.get("minimize", "5s"))]
     else:
         args += ["-test.run", unit["run"], "-test.count", "1"]
         if unit.get("engine", "rapid") == "rapid":
